@@ -69,6 +69,9 @@ const OPS: &[(&str, u8)] = &[
     ("hs += [fn () {\nreturn x + 0\n}]", 0),
     ("print(hs[0]())", 0),
     ("[x, y] := [K, x + 0]", 0),
+    ("{\nx := K\n{\nx = K\n}\nprint(x + 0)\n}\nprint(x + 0)", 0),
+    ("{\nx := K\nfn aN() {\nx = K\n}\naN()\nprint(x + 0)\n}\nprint(x + 0)", 5),
+    ("{\nx := K\n{\nx += K\n[x] = [x + 1]\n}\nprint(x + 0)\n}", 0),
     ("{_, _, ..y} := {\"z\": K}", 0),
     ("fn x() {\nx := K\nprint(x + 0)\n}\nx()", 0),
     ("fn x(x) {\nprint(x + 0)\n}\nx(K)", 0),
